@@ -1,4 +1,5 @@
 import Oidc.Proofs.CodeVerify
+import Oidc.Proofs.CodeCompose
 import Oidc.Shapes
 import Oidc.Proofs.VerifyRevoke
 import Oidc.Facts
@@ -106,10 +107,11 @@ open Oidc.Generated Oidc.CodeRefine in
 theorem code_VerifyToken {σ : Type} (ops : Go.VOps σ) (abs : σ → V) (F : Facts) (S : OpsSpec ops abs F)
     (now : Int) (t : Go.Inst) (tok : Go.Str) (w : σ)
     (hF : F.blTTL = Code.defaultBlacklistDuration)
-    (hAgree : (t.parseJWT tok).2 = none → t.extractClaims tok = ((t.parseJWT tok).1.Claims, none)) :
+    (hAgree : (t.parseJWT tok).2 = none → t.extractClaims tok = ((t.parseJWT tok).1.Claims, none))
+    (hne : (ops.tokenCacheGet w now tok).1.2 = true → (ops.tokenCacheGet w now tok).1.1 ≠ []) :
     abs (Code.TraefikOidc_VerifyToken ops now t tok w).2 = (verify F (codeTok t) (abs w) now (String.ofList tok)).1 ∧
     (Code.TraefikOidc_VerifyToken ops now t tok w).1.isNone = (verify F (codeTok t) (abs w) now (String.ofList tok)).2 :=
-  VerifyToken_refines ops abs F S now t tok w hF hAgree
+  VerifyToken_refines ops abs F S now t tok w hF hAgree hne
 
 open Oidc.Generated Oidc.CodeRefine in
 /-- main.go `RevokeToken` as translated takes the model's step -/
@@ -128,10 +130,12 @@ theorem code_revoke_immediate {σ : Type} (ops : Go.VOps σ) (abs : σ → V) (F
     (hF : F.blTTL = 24 * Go.Hour) (hS : F.skew = Code.ClockSkewToleranceFuture) (hR : F.revokeUntilExp = true)
     (hAgree : (t.parseJWT tok).2 = none → t.extractClaims tok = ((t.parseJWT tok).1.Claims, none))
     (claims : Go.Obj) (hc : t.extractClaims tok = (claims, none)) (hx : (Go.asF64 (Go.mapGet claims ['e','x','p'])).2 = true)
+    (hne : (ops.tokenCacheGet (Code.TraefikOidc_RevokeToken ops tr t tok w) now tok).1.2 = true →
+      (ops.tokenCacheGet (Code.TraefikOidc_RevokeToken ops tr t tok w) now tok).1.1 ≠ [])
     (h2 : now < tr + revTTL F (codeTok t) tr (String.ofList tok)) :
     (Code.TraefikOidc_VerifyToken ops now t tok (Code.TraefikOidc_RevokeToken ops tr t tok w)).1.isSome = true := by
   have hv := (VerifyToken_refines ops abs F S now t tok (Code.TraefikOidc_RevokeToken ops tr t tok w)
-    (by rw [hF, default_is_24h]) hAgree).2
+    (by rw [hF, default_is_24h]) hAgree hne).2
   rw [RevokeToken_refines ops abs F S tr t tok w hF hS hR claims hc hx] at hv
   rw [revoke_immediate F (codeTok t) (abs w) tr now (String.ofList tok) h2] at hv
   cases h : (Code.TraefikOidc_VerifyToken ops now t tok (Code.TraefikOidc_RevokeToken ops tr t tok w)).1 <;> simp [h] at hv ⊢
@@ -145,11 +149,43 @@ theorem code_valid_implies_scratch {σ : Type} (ops : Go.VOps σ) (abs : σ → 
     (hAgree : (t.parseJWT tok).2 = none → t.extractClaims tok = ((t.parseJWT tok).1.Claims, none))
     (hint : ∀ id a n, (codeTok t).scratch id a = true → a ≤ n → n ≤ (codeTok t).exp id → (codeTok t).scratch id n = true)
     (hinv : TcInv (codeTok t) (abs w).tc last)
+    (hne : (ops.tokenCacheGet w now tok).1.2 = true → (ops.tokenCacheGet w now tok).1.1 ≠ [])
     (hok : (Code.TraefikOidc_VerifyToken ops now t tok w).1 = none) :
     (t.parseJWT tok).2 = none ∧ Code.TraefikOidc_VerifyJWTSignatureAndClaims now t (t.parseJWT tok).1 tok = none := by
-  have hv := (VerifyToken_refines ops abs F S now t tok w hF hAgree).2
+  have hv := (VerifyToken_refines ops abs F S now t tok w hF hAgree hne).2
   rw [hok] at hv
   have := (valid_implies_scratch F (codeTok t) (abs w) now (String.ofList tok) last hl hint hinv hv.symm).1
+  simp only [codeTok, String.toList_ofList, Bool.and_eq_true, Option.isNone_iff_eq_none] at this
+  exact this
+
+open Oidc.Generated Oidc.CodeRefine in
+/-- **end to end on the translated code.**  `VerifyToken` / `RevokeToken` of main.go running on cache.go (token cache through the
+    `TokenCache` wrapper, revocation list, capacity `n`), all as translated from the source, with a limiter that behaves like the
+    model's token bucket: along every history from freshly made caches the answers are those of `Oidc.Verify` -/
+theorem code_answers_are_model_answers (F : Facts) (hse : F.se = false) (hF : F.blTTL = 24 * Go.Hour)
+    (hS : F.skew = Code.ClockSkewToleranceFuture) (hR : F.revokeUntilExp = true) (t : Go.Inst) (ops : List VOp) (hi : InstOk t ops)
+    (n : Int) (hn : 0 ≤ n) (lim : Limiter.L) :
+    (codeAnswers F t (freshW n hn lim) ops).map (fun p => (p.1.abs, p.2)) =
+      answers F (codeTok t) ⟨Cache.init n.toNat, Cache.init n.toNat, lim⟩ (ops.map VOp.abs) := by
+  have := code_answers F hse hF hS hR t ops hi ops (freshW n hn lim) (fun _ h => h) (by intro p hp; cases hp)
+  rw [freshW_abs] at this
+  exact this
+
+open Oidc.Generated Oidc.CodeRefine in
+/-- hence, for the translated code: along every such history with a non-decreasing clock a token is reported valid only if, at
+    that instant, it parses and the translated `VerifyJWTSignatureAndClaims` (C02) returns nil — whatever the caches held -/
+theorem code_history_valid_implies_scratch (F : Facts) (hse : F.se = false) (hF : F.blTTL = 24 * Go.Hour)
+    (hS : F.skew = Code.ClockSkewToleranceFuture) (hR : F.revokeUntilExp = true) (t : Go.Inst) (ops : List VOp) (hi : InstOk t ops)
+    (n : Int) (hn : 0 ≤ n) (lim : Limiter.L) (t0 : Int) (hm : Mono t0 (ops.map VOp.abs))
+    (hint : ∀ id a n, (codeTok t).scratch id a = true → a ≤ n → n ≤ (codeTok t).exp id → (codeTok t).scratch id n = true) :
+    ∀ now tok, (VOp.verify now tok, some true) ∈ codeAnswers F t (freshW n hn lim) ops →
+      (t.parseJWT tok).2 = none ∧ Code.TraefikOidc_VerifyJWTSignatureAndClaims now t (t.parseJWT tok).1 tok = none := by
+  intro now tok hmem
+  have hmap : (Op.verify now (String.ofList tok), some true) ∈
+      (codeAnswers F t (freshW n hn lim) ops).map (fun p => (p.1.abs, p.2)) :=
+    List.mem_map.mpr ⟨(VOp.verify now tok, some true), hmem, rfl⟩
+  rw [code_answers_are_model_answers F hse hF hS hR t ops hi n hn lim] at hmap
+  have := history_valid_implies_scratch F (codeTok t) hint (ops.map VOp.abs) n.toNat n.toNat lim t0 hm now (String.ofList tok) hmap
   simp only [codeTok, String.toList_ofList, Bool.and_eq_true, Option.isNone_iff_eq_none] at this
   exact this
 
